@@ -284,6 +284,38 @@ class KernelChecker:
             self.ob(f"declared-once: {name} is new in its scope", True)
         scope.decls[name] = info
 
+    _RANK = {L.DataType.BOOL: 0, L.DataType.INT: 1, L.DataType.REAL: 2, L.DataType.SCALAR: 3}
+
+    def value_type(self, e):
+        """Type of the VALUE of e (real(), imag() and abs() give real values whatever their argument)."""
+        if isinstance(e, L.MathFunction):
+            if e.function in ("real", "imag", "abs"):
+                return L.DataType.REAL
+            ts = [self.value_type(a) for a in e.args]
+        elif isinstance(e, L.LT | L.LE | L.GT | L.GE | L.EQ | L.NE | L.And | L.Or | L.Not):
+            return L.DataType.BOOL
+        elif isinstance(e, L.Conditional):
+            ts = [self.value_type(e.true), self.value_type(e.false)]
+        elif isinstance(e, L.NaryOp):
+            ts = [self.value_type(a) for a in e.args]
+        elif isinstance(e, L.BinOp):
+            ts = [self.value_type(e.lhs), self.value_type(e.rhs)]
+        elif isinstance(e, L.PrefixUnaryOp):
+            ts = [self.value_type(e.arg)]
+        else:
+            return getattr(e, "dtype", None)
+        ts = [t for t in ts if t in self._RANK]
+        return max(ts, key=self._RANK.get) if ts else getattr(e, "dtype", None)
+
+    def type_sound(self, target, tdtype, value):
+        """C converts on assignment: storing a SCALAR (possibly complex) value in REAL storage drops the imaginary part."""
+        vd = self.value_type(value)
+        if vd is None or tdtype not in self._RANK or vd not in self._RANK:
+            return
+        ok = self._RANK[vd] <= self._RANK[tdtype] or self._RANK[tdtype] >= 2 and self._RANK[vd] <= 2
+        self.results.append((f"type-sound: {target} of type {tdtype.name} is assigned a value of type {vd.name} without narrowing",
+                             "proved" if ok else "refuted", "eval", 0.0, dict(access=f"{target}: {tdtype.name} <- {vd.name}")))
+
     def stmt(self, s, scope):
         if isinstance(s, L.StatementList):
             for x in s.statements:
@@ -316,6 +348,7 @@ class KernelChecker:
             term = None
             if s.value is not None:
                 self.expr(s.value, scope, deps)
+                self.type_sound(s.symbol.name, s.symbol.dtype, s.value)
                 if s.symbol.dtype == L.DataType.INT:
                     term = self.term(s.value, scope)
             self.declare(scope, s.symbol.name, dict(kind="var", deps=deps, term=term))
@@ -350,6 +383,8 @@ class KernelChecker:
         deps = []
         self.expr(e.rhs, scope, deps)
         lhs = e.lhs
+        if isinstance(lhs, L.ArrayAccess | L.Symbol):
+            self.type_sound(lhs.array.name if isinstance(lhs, L.ArrayAccess) else lhs.name, lhs.dtype, e.rhs)
         if isinstance(lhs, L.ArrayAccess):
             name = lhs.array.name
             self.access(lhs, scope, write=True)
